@@ -10,6 +10,7 @@ import (
 	"os"
 	"path/filepath"
 	"runtime"
+	"runtime/pprof"
 	"sort"
 	"strings"
 	"testing"
@@ -255,7 +256,13 @@ func WorkerMain(t *testing.T, engines map[string]Engine) {
 	nts := map[uint64]struct{}{}
 	sts := map[uint64]struct{}{}
 	start := time.Now() // wall clock of the *driver loop* only; never visible to a run
+	if pf := os.Getenv("VERIF_CPUPROFILE"); pf != "" {
+		if f, err := os.Create(pf); err == nil {
+			_ = pprof.StartCPUProfile(f)
+		}
+	}
 	finish := func(code int) {
+		pprof.StopCPUProfile()
 		sum.WallS = time.Since(start).Seconds()
 		sum.Fingerprints = keys(fps)
 		sum.Nontrivial = keys(nts)
@@ -363,8 +370,13 @@ func WorkerMain(t *testing.T, engines map[string]Engine) {
 		if !o.tainted && job.ShrinkBudget > 0 && !isKnown {
 			tainted := false
 			var best *Ctx
+			shrinkStart := time.Now() // wall clock of the driver loop only: bounds the time spent minimising
+			shrinkLimit := 40.0
+			if job.Tier == "thorough" {
+				shrinkLimit = 180.0
+			}
 			min, used := Shrink(f.Tape, func(cand []uint64) (bool, []uint64) {
-				if tainted {
+				if tainted || time.Since(shrinkStart).Seconds() > shrinkLimit {
 					return false, nil
 				}
 				so := RunOne(t, eng, &job, runSeed, ReplayTape(cand), idx, false)
